@@ -34,6 +34,7 @@ func runC11(c *report.Ctx) {
 	ruleOverlaySequence(c)
 	ruleWholeBucketLimit(c)
 	rulePrefixTerminated(c)
+	ruleBucketPathCutOnlyAtSeparators(c)
 
 	// ---- (2) writer exclusion ----------------------------------------------------------------------
 	ruleWriterLock(c)
@@ -465,7 +466,7 @@ func setKeyClass(p *an.Prog, k ssa.Value) string {
 // ruleWriterLock is shared by C11/C20: the single-writer mutex is held from BeginTx to Commit/Rollback and released on every path.
 func ruleWriterLock(c *report.Ctx) {
 	p := c.P
-	c.Rule("writer-lock", "BeginTx acquires LevelDB.muTr and returns holding it; Commit and Rollback release it exactly when the transaction is a write transaction", 4)
+	c.Rule("writer-lock", "BeginTx acquires LevelDB.muTr and returns holding it; Commit and Rollback release it exactly when the transaction is a write transaction, and touch neither the store nor the batch after releasing it", 6)
 	beginTx := fn(c, pkgLDB, "LevelDB", "BeginTx")
 	beginRead := fn(c, pkgLDB, "LevelDB", "BeginReadTx")
 	commit := fn(c, pkgLDB, "transaction", "Commit")
@@ -542,6 +543,46 @@ func ruleWriterLock(c *report.Ctx) {
 				badRO = true
 			}
 		})
+		// nothing touches the store or the shared batch once the writer mutex is released: BeginTx re-uses one
+		// package-level batch (newBatch resets it), so the mutex is all that keeps the next writer off a batch that is
+		// still being written
+		touches := func(in ssa.Instruction) bool {
+			cc := an.CallOf(in)
+			if cc == nil {
+				return false
+			}
+			for _, g := range p.Callees(in) {
+				if pk := an.FuncPkg(g); pk != nil && strings.Contains(pk.Path(), "goleveldb") {
+					return true
+				}
+				if rv := g.Signature.Recv(); rv != nil {
+					if n := an.NamedOf(rv.Type()); n != nil && n.Obj().Pkg() != nil && n.Obj().Pkg().Path() == pkgLDB && n.Obj().Name() == "batch" {
+						return true
+					}
+				}
+			}
+			return false
+		}
+		late := false
+		an.Instrs(f, func(in ssa.Instruction) {
+			if !isMu(in, "Unlock") || late {
+				return
+			}
+			idx := 0
+			for k, x := range in.Block().Instrs {
+				if x == in {
+					idx = k + 1
+				}
+			}
+			s2 := &an.Search{P: p, Fn: f, GoalInstr: touches}
+			if w := s2.Run(in.Block(), idx, nil); w != nil {
+				late = true
+				c.Fail(sk(f)+":store-untouched-after-unlock", "the store or the transaction's batch is used after the writer mutex has been released: the batch is one package-level object that the next BeginTx resets — a writer queued on the mutex empties and refills it while this commit is still writing it (a block's coins and cursor dropped or torn, Commit returning nil)", posOf(c, in), w...)
+			}
+		})
+		if !late {
+			c.OK(sk(f)+":store-untouched-after-unlock", "no store or batch operation is reachable after Unlock", p.Pos(f.Pos()))
+		}
 		if f == rollback {
 			if badRO {
 				c.Fail(sk(f)+":no-unlock-for-readers", "Rollback of a read transaction unlocks a mutex it never took", p.Pos(f.Pos()))
